@@ -280,6 +280,13 @@ def _hashed_object(repo: Repo, fi: FuncInfo, node: ast.AST, info: HashInfo, self
         for e in node.elts:
             _hashed_object(repo, fi, e, info, self_n)
         return
+    if isinstance(node, ast.Starred):
+        a0 = attr_chain(node.value)
+        if a0 and len(a0) == 2 and a0[0] == self_n and fi.cls is not None and a0[1] in set_typed_fields(repo, fi.cls.name):
+            info.bad.append((fi, node, f"*self.{a0[1]} spreads a set into the hashed tuple in its internal order, which depends on insertion history: equal objects can hash differently"))
+            return
+        _hashed_object(repo, fi, node.value, info, self_n)
+        return
     if isinstance(node, ast.Constant):
         return
     if isinstance(node, ast.Name):
@@ -702,6 +709,11 @@ class OrderEval:
             cn = call_name(node)
             if cn == ("isinstance",):
                 return True  # operands of the group: the guard is judged by R5
+            if cn and len(cn) == 2 and cn[0] in ("tuple",) and cn[1] in CMP and len(node.args) == 2:
+                # tuple.__le__(a, b)  ==  tuple(a) <= tuple(b)
+                sym = {"__lt__": "<", "__le__": "<=", "__gt__": ">", "__ge__": ">="}[cn[1]]
+                mk = lambda a: ast.Call(func=ast.Name(id="tuple", ctx=ast.Load()), args=[a], keywords=[])
+                return _apply(sym, self.rel(fi, mk(node.args[0]), mk(node.args[1]), case))
             if cn and len(cn) == 2 and cn[1] in CMP and len(node.args) == 1 and depth < 4:
                 recv, arg = cn[0], unparse(node.args[0])
                 target = self.repo.method(self.ci.name, cn[1])
@@ -1018,6 +1030,9 @@ def _variants():
         V("rename-other", rename_local(MP, "MeshPatt.__lt__", "other", "rhs"), "silent"),
         V("perm-le-cascaded-correct", replace_stmt(PE, "Perm.__le__", "return (len(self), tuple(self)) <= (len(other), tuple(other))",
                                                    "if len(self) != len(other):\n    return len(self) < len(other)\nreturn tuple(self) <= tuple(other)"), "silent", note="a correct case analysis is the same order on all abstract cases"),
+        V("mesh-hash-starred-set", replace_expr(MP, "MeshPatt.__hash__", "hash((self.pattern, self.shading))", "hash((self.pattern, *self.shading))"), "fire", "C08-R2"),
+        V("perm-le-tuple-dunder-wrong", replace_stmt(PE, "Perm.__le__", "return (len(self), tuple(self)) <= (len(other), tuple(other))", "return len(self) < len(other) or tuple.__le__(self, other)"), "fire", "C08-R6"),
+        V("perm-le-tuple-dunder-right", replace_stmt(PE, "Perm.__le__", "return (len(self), tuple(self)) <= (len(other), tuple(other))", "return len(self) < len(other) or (len(self) == len(other) and tuple.__le__(self, other))"), "silent"),
         V("perm-le-cascaded-wrong", replace_stmt(PE, "Perm.__le__", "return (len(self), tuple(self)) <= (len(other), tuple(other))",
                                                  "if len(self) < len(other):\n    return True\nreturn tuple(self) <= tuple(other)"), "fire", "C08-R6"),
         V("mesh-lt-components-swapped", [replace_expr(MP, "MeshPatt.__lt__", "(self.pattern, sorted(self.shading)) < (other.pattern, sorted(other.shading))", "(sorted(self.shading), self.pattern) < (sorted(other.shading), other.pattern)")], "fire", "C08-R6", note="__lt__ and __le__ would then order by different keys"),
